@@ -15,7 +15,8 @@
    (3) the building blocks used above and for the classes not covered by (2): in/out split, limits = rate x step length,
        transport flows, level recursion, holding cost by Abel summation, take prorating, portfolio = direct sum + nodal rows.
    MultiCommodityContract = that problem delivering into several nodes with factors (C02_multi_unit).
-   NOT PROVED (hence still "partial"): instances for ExtendedTransport,
+   ExtendedTransport = Transport + take rows on the quantity leaving node 1 (C02_ext_transport_unit).
+   NOT PROVED (hence still "partial"): instances for
    coarse / periodic asset grids and the binary options of the storage; the discount factor itself (an irrational power: the
    builders receive it as data, the oracle compares it); and everything rests on the correspondence of the model builders with
    assets.py.  For those classes the composition is decided per instance by the check: the independent formulation
@@ -183,6 +184,17 @@ Theorem C02_multi_unit :
           u_dec := u_dec u; u_tb := tb_multi (u_tb u) node0 nodes factors |}.
 Proof. exact multi_unit_ok. Qed.
 Print Assumptions C02_multi_unit.
+
+(* ExtendedTransport = Transport + take rows on the quantity leaving node 1 *)
+Theorem C02_ext_transport_unit :
+  forall g rg p a, transport g rg p = Some a -> rg_minor rg = None ->
+  List.length (rg_dt rg) = rg_T rg -> List.length (rg_disc rg) = rg_T rg ->
+  List.length (transport_costs g rg p) = rg_T rg -> String.eqb (tp_n1 p) (tp_n2 p) = false ->
+  forall mx mn : list take,
+  u_ok {| u_name := tp_name p; u_prob := {| ap_lp := add_rows (ap_lp a) (ext_rows g rg p a mx mn); ap_map := ap_map a |};
+          u_dec := fun x => x; u_tb := tb_ext_transport g rg p a mx mn |}.
+Proof. exact ext_transport_unit_ok. Qed.
+Print Assumptions C02_ext_transport_unit.
 
 (* the boolean test the check evaluates on every generated portfolio (RefCorr.unit_hyps, names distinct) is enough for the
    composition theorems to apply to the model of that portfolio *)
